@@ -12,9 +12,11 @@
    * a defaultdict(list) filled by append is the list of (key, value) pairs in append order;
      d[k] = the values appended under k, "k in d" = that list is non-empty.
    * dict.update over the per-process dicts = the LAST per-process dict that has the key wins.
-   * retrieve() collects namedtuples in a set; the model returns the sequence of add() calls,
-     the harness forms the set on both sides.
-   * inet_ntop (bytes -> text) is not modelled: an address is its packed 4/16 bytes.
+   * retrieve() collects namedtuples in a set: [*_adds] is the sequence of ret.add() calls, the public
+     functions return [as_set] of it (the distinct rows; list(set) order is not modelled, the harness sorts).
+   * inet_ntop (bytes -> text) is not modelled: an address is its packed 4/16 bytes.  Whether
+     inet_ntop(AF_INET6, ..) works at all and what supports_ipv6() answers are oracles ([ipv6_oracle]).
+   * [*_log] = the /proc/net files handed to open_text(), in order (compared with an access log).
    Two switches ([variant]) distinguish the code as it is now ([current], both true) from the code before two
    repairs ([before_repairs], both false; kept so that the old failures stay stated and replayable):
      v_merge : get_all_inodes keeps the (pid, fd) pairs of every process      (fix d36edd1; before: dict.update)
@@ -129,6 +131,13 @@ Inductive addr := ANone | AInet (ip : bytes) (port : Z) | APath (p : bytes).
 Record row := { r_fd : Z; r_family : Z; r_type : Z; r_laddr : addr; r_raddr : addr;
                 r_status : bytes; r_pid : option Z }.
 
+(* the host's IPv6 support: does socket.inet_ntop(AF_INET6, packed) work (False: it raises ValueError,
+   psutil issue 623), and what does supports_ipv6() answer *)
+Record ipv6_oracle := { o_ntop6 : bool; o_supported : bool }.
+Definition ipv6_ok : ipv6_oracle := {| o_ntop6 := true; o_supported := true |}.
+(* decode_address either returns an address or raises _Ipv6UnsupportedError (caught by process_inet) *)
+Inductive dres := DAddr (a : addr) | DUnsupported.
+
 Definition hexv (c : Z) : option Z :=
   if (48 <=? c) && (c <=? 57) then Some (c - 48)
   else if (65 <=? c) && (c <=? 70) then Some (c - 55)
@@ -166,19 +175,22 @@ Definition pack_be (w : Z) : bytes := [(w / 16777216) mod 256; (w / 65536) mod 2
 Definition pack_le (w : Z) : bytes := [w mod 256; (w / 256) mod 256; (w / 65536) mod 256; (w / 16777216) mod 256].
 
 (* [le] = _pslinux.LITTLE_ENDIAN *)
-Definition decode_address (le : bool) (a : bytes) (family : Z) : outcome addr :=
+Definition decode_address (le : bool) (o : ipv6_oracle) (a : bytes) (family : Z) : outcome dres :=
   match split_on 58 a with
   | [ip; port] =>
     do p <- of_option ValueError (parse_hex port);
-    if p =? 0 then Val ANone
+    if p =? 0 then Val (DAddr ANone)
     else
       do raw <- of_option ValueError (b16decode ip);
       if family =? AF_INET then
         let b := if le then rev raw else raw in
-        if (length b =? 4)%nat then Val (AInet b p) else Exc ValueError     (* inet_ntop *)
+        if (length b =? 4)%nat then Val (DAddr (AInet b p)) else Exc ValueError     (* inet_ntop *)
       else
         match unpack_le4 raw with
-        | Some ws => Val (AInet (flat_map (if le then pack_be else pack_le) ws) p)
+        | Some ws =>
+          (* try: inet_ntop(AF_INET6, ..) except ValueError: if not supports_ipv6(): raise _Ipv6UnsupportedError; raise *)
+          if o_ntop6 o then Val (DAddr (AInet (flat_map (if le then pack_be else pack_le) ws) p))
+          else if o_supported o then Exc ValueError else Val DUnsupported
         | None => OutOfModel                                               (* struct.error *)
         end
   | _ => Exc ValueError
@@ -198,7 +210,7 @@ Definition filt_skip (filt : option Z) (pid : option Z) : bool :=
   | Some f => match pid with Some p => negb (f =? p) | None => true end
   end.
 
-Definition inet_line (le : bool) (family type : Z) (lk : imap) (filt : option Z) (line : bytes)
+Definition inet_line (le : bool) (o : ipv6_oracle) (family type : Z) (lk : imap) (filt : option Z) (line : bytes)
   : outcome (option row) :=
   match firstn 10 (split_ws line) with
   | [_; laddr; raddr; status; _; _; _; _; _; inode] =>
@@ -211,30 +223,38 @@ Definition inet_line (le : bool) (family type : Z) (lk : imap) (filt : option Z)
     else
       do st <- (if type =? SOCK_STREAM then of_option KeyError (assoc status gen_tcp_statuses)
                 else Val CONN_NONE);
-      do la <- decode_address le laddr family;
-      do ra <- decode_address le raddr family;
-      Val (Some {| r_fd := snd own; r_family := family; r_type := type; r_laddr := la; r_raddr := ra;
-                   r_status := st; r_pid := fst own |})
+      do la <- decode_address le o laddr family;
+      match la with
+      | DUnsupported => Val None                       (* except _Ipv6UnsupportedError: continue *)
+      | DAddr la =>
+        do ra <- decode_address le o raddr family;
+        match ra with
+        | DUnsupported => Val None
+        | DAddr ra =>
+          Val (Some {| r_fd := snd own; r_family := family; r_type := type; r_laddr := la; r_raddr := ra;
+                       r_status := st; r_pid := fst own |})
+        end
+      end
   | _ => Exc RuntimeError
   end.
 
-Fixpoint inet_lines (le : bool) (family type : Z) (lk : imap) (filt : option Z) (ls : list bytes)
+Fixpoint inet_lines (le : bool) (o : ipv6_oracle) (family type : Z) (lk : imap) (filt : option Z) (ls : list bytes)
   : outcome (list row) :=
   match ls with
   | [] => Val []
   | l :: r =>
-    do x <- inet_line le family type lk filt l;
-    do xs <- inet_lines le family type lk filt r;
+    do x <- inet_line le o family type lk filt l;
+    do xs <- inet_lines le o family type lk filt r;
     Val (match x with Some rw => rw :: xs | None => xs end)
   end.
 
 (* content = None: the file does not exist *)
-Definition process_inet (le : bool) (content : option bytes) (is6 : bool) (family type : Z)
+Definition process_inet (le : bool) (o : ipv6_oracle) (content : option bytes) (is6 : bool) (family type : Z)
            (lk : imap) (filt : option Z) : outcome (list row) :=
   match content with
   | None => if is6 then Val [] else OutOfModel
   | Some c =>
-    if text_safe c then inet_lines le family type lk filt (tl (lines_keep c)) else OutOfModel
+    if text_safe c then inet_lines le o family type lk filt (tl (lines_keep c)) else OutOfModel
   end.
 
 (* ------------------------------------------------------------ process_unix *)
@@ -304,45 +324,97 @@ Definition process_unix (v : variant) (content : option bytes) (family : Z) (lk 
 (* ------------------------------------------------------------ retrieve *)
 Definition proto := (bytes * Z * option Z)%type.
 
-Definition proto_rows (v : variant) (le : bool) (files : bytes -> option bytes) (lk : imap) (filt : option Z) (p : proto)
+Definition proto_rows (v : variant) (le : bool) (o : ipv6_oracle) (files : bytes -> option bytes) (lk : imap) (filt : option Z) (p : proto)
   : outcome (list row) :=
   let '(name, family, ty) := p in
   if (family =? AF_INET) || (family =? AF_INET6) then
     match ty with
-    | Some t => process_inet le (files name) (suffixb [54] name) family t lk filt
+    | Some t => process_inet le o (files name) (suffixb [54] name) family t lk filt
     | None => OutOfModel
     end
   else process_unix v (files name) family lk filt.
 
-Fixpoint protos_rows (v : variant) (le : bool) (files : bytes -> option bytes) (lk : imap) (filt : option Z)
+Fixpoint protos_rows (v : variant) (le : bool) (o : ipv6_oracle) (files : bytes -> option bytes) (lk : imap) (filt : option Z)
          (ps : list proto) : outcome (list row) :=
   match ps with
   | [] => Val []
   | p :: r =>
-    do a <- proto_rows v le files lk filt p;
-    do b <- protos_rows v le files lk filt r;
+    do a <- proto_rows v le o files lk filt p;
+    do b <- protos_rows v le o files lk filt r;
     Val (a ++ b)
   end.
 
-Definition retrieve (v : variant) (le : bool) (files : bytes -> option bytes) (kind : bytes) (lk : imap) (filt : option Z)
+(* the files handed to open_text(): an absent "...6" file is only probed with os.path.exists; after a
+   failure nothing more is opened *)
+Definition proto_log (files : bytes -> option bytes) (p : proto) : list bytes :=
+  let '(name, family, ty) := p in
+  if (family =? AF_INET) || (family =? AF_INET6) then
+    match ty with
+    | Some _ => match files name with
+                | None => if suffixb [54] name then [] else [name]
+                | Some _ => [name]
+                end
+    | None => []
+    end
+  else [name].
+Fixpoint protos_log (v : variant) (le : bool) (o : ipv6_oracle) (files : bytes -> option bytes) (lk : imap)
+         (filt : option Z) (ps : list proto) : list bytes :=
+  match ps with
+  | [] => []
+  | p :: r =>
+    proto_log files p ++ match proto_rows v le o files lk filt p with
+                         | Val _ => protos_log v le o files lk filt r
+                         | _ => []
+                         end
+  end.
+
+Definition retrieve (v : variant) (le : bool) (o : ipv6_oracle) (files : bytes -> option bytes) (kind : bytes) (lk : imap) (filt : option Z)
   : outcome (list row) :=
   do ps <- of_option KeyError (assoc kind gen_tmap);
-  protos_rows v le files lk filt ps.
+  protos_rows v le o files lk filt ps.
+Definition retrieve_log (v : variant) (le : bool) (o : ipv6_oracle) (files : bytes -> option bytes) (kind : bytes)
+           (lk : imap) (filt : option Z) : list bytes :=
+  match assoc kind gen_tmap with
+  | Some ps => protos_log v le o files lk filt ps
+  | None => []
+  end.
+
+(* ------------------------------------------------------------ ret = set(); ret.add(conn); list(ret) *)
+Definition addr_eq_dec : forall a b : addr, {a = b} + {a <> b}.
+Proof. decide equality; try apply Z.eq_dec; apply (list_eq_dec Z.eq_dec). Defined.
+Definition row_eq_dec : forall a b : row, {a = b} + {a <> b}.
+Proof.
+  decide equality; try apply Z.eq_dec; try apply addr_eq_dec; try apply (list_eq_dec Z.eq_dec).
+  decide equality; apply Z.eq_dec.
+Defined.
+Definition as_set (l : list row) : list row := nodup row_eq_dec l.
 
 (* ------------------------------------------------------------ public entry points *)
 Definition check_kind (kind : bytes) : outcome unit :=
   if existsb (beqb kind) (map fst gen_conn_tmap) then Val tt else Exc ValueError.
 
-(* psutil.net_connections(kind) *)
-Definition net_connections (v : variant) (le : bool) (files : bytes -> option bytes) (procs : list (Z * listing))
-           (kind : bytes) : outcome (list row) :=
+(* psutil.net_connections(kind): the sequence of ret.add() calls, the returned rows, the files opened *)
+Definition net_connections_adds (v : variant) (le : bool) (o : ipv6_oracle) (files : bytes -> option bytes)
+           (procs : list (Z * listing)) (kind : bytes) : outcome (list row) :=
   do _ <- check_kind kind;
   do ds <- get_all_inodes procs;
-  retrieve v le files kind (lookup_v v ds) None.
+  retrieve v le o files kind (lookup_v v ds) None.
+Definition net_connections (v : variant) (le : bool) (o : ipv6_oracle) (files : bytes -> option bytes)
+           (procs : list (Z * listing)) (kind : bytes) : outcome (list row) :=
+  omap as_set (net_connections_adds v le o files procs kind).
+Definition net_log (v : variant) (le : bool) (o : ipv6_oracle) (files : bytes -> option bytes)
+           (procs : list (Z * listing)) (kind : bytes) : list bytes :=
+  match check_kind kind with
+  | Val _ => match get_all_inodes procs with
+             | Val ds => retrieve_log v le o files kind (lookup_v v ds) None
+             | _ => []
+             end
+  | _ => []
+  end.
 
 (* psutil.Process(pid).net_connections(kind) for a live process; rows are pconn (no pid field) *)
-Definition proc_net_connections (v : variant) (le : bool) (files : bytes -> option bytes) (pid : Z) (ls : listing)
-           (kind : bytes) : outcome (list row) :=
+Definition proc_net_connections_adds (v : variant) (le : bool) (o : ipv6_oracle) (files : bytes -> option bytes)
+           (pid : Z) (ls : listing) (kind : bytes) : outcome (list row) :=
   do _ <- check_kind kind;
   match ls with
   | LsDenied => Exc AccessDenied
@@ -350,7 +422,22 @@ Definition proc_net_connections (v : variant) (le : bool) (files : bytes -> opti
   | LsOk ents =>
     do d <- get_proc_inodes pid ents;
     match d with
-    | [] => Val []
-    | _ => retrieve v le files kind (lookup1 d) (Some pid)
+    | [] => Val []                                    (* "no connections for this process": nothing is read *)
+    | _ => retrieve v le o files kind (lookup1 d) (Some pid)
     end
+  end.
+Definition proc_net_connections (v : variant) (le : bool) (o : ipv6_oracle) (files : bytes -> option bytes)
+           (pid : Z) (ls : listing) (kind : bytes) : outcome (list row) :=
+  omap as_set (proc_net_connections_adds v le o files pid ls kind).
+Definition proc_log (v : variant) (le : bool) (o : ipv6_oracle) (files : bytes -> option bytes)
+           (pid : Z) (ls : listing) (kind : bytes) : list bytes :=
+  match check_kind kind with
+  | Val _ => match ls with
+             | LsOk ents => match get_proc_inodes pid ents with
+                            | Val ((_ :: _) as d) => retrieve_log v le o files kind (lookup1 d) (Some pid)
+                            | _ => []
+                            end
+             | _ => []
+             end
+  | _ => []
   end.
